@@ -178,6 +178,12 @@ def scenario(cfg, env):
         calls.append((a, d))
         return result_obj
 
+    if pass_a == "pos_rest":
+        # a function with *rest called with more positional values than named parameters: the extra values are nobody's declared argument
+        def fn(a="default_a", *rest):  # noqa: F811
+            calls.append((a, rest))
+            return result_obj
+
     sw = ds.SchemaCheckSwitch()
     was = sw.is_on()
     try:
@@ -188,6 +194,8 @@ def scenario(cfg, env):
         missing = []
         if pass_a == "pos":
             args.append(sa.value)
+        elif pass_a == "pos_rest":
+            args += [sa.value, 7, "extra"]
         elif pass_a == "kw":
             kwargs["a"] = sa.value
         elif spec_a != "undeclared":
@@ -301,7 +309,7 @@ def configs(tier):
     out = []
     # scalar argument a: every spec x pass kind ; frame slot undeclared
     for sa in SCALAR_SPECS:
-        for pa in ("pos", "kw", "missing"):
+        for pa in ("pos", "kw", "missing", "pos_rest"):
             out.append((sa, pa, "undeclared", "missing", 0, None, True, True))
     # return value specs
     for sr in SCALAR_SPECS:
